@@ -1088,8 +1088,10 @@ def far_position_op(rng, family, mode):
 def run_C16(ctx):
     rng = ctx.rng
     groups, allc = [], []
+    # BelT-CTR's core and wrapper are not `Clone` at the pinned commit: the harness probes for an impl (auto-ref method probing at a
+    # concrete call site) and answers `noclone` when there is none; such cases are then skipped
     targets = [("block", m) for m in BLOCK_MODES] + [("buf", "cfbbuf-enc"), ("buf", "cfbbuf-dec")] + \
-              [("stream", m) for m in STREAM_MODES if m != "belt"] + [("core", m) for m in STREAM_MODES if m != "belt"]
+              [("stream", m) for m in STREAM_MODES] + [("core", m) for m in STREAM_MODES]
     for (fam, mode) in targets:
         for _ in range(ctx.n(14, 200)):
             mm = mode if fam in ("stream", "core") else ("cbc-enc" if fam == "buf" else mode)
@@ -1169,10 +1171,12 @@ def run_C16(ctx):
             groups.append((x, y, z, len(h1)))
             allc += [x, y, z]
     res = ctx.run(allc, layers=())
-    ctx.no_panic(allc, res)
+    notclone = set(c.cid for c in allc if res["H"][c.cid] and "noclone" in res["H"][c.cid])
+    ctx.stats["not_cloneable_cases"] = len(notclone)
+    ctx.no_panic([c for c in allc if c.cid not in notclone], res)
     for (x, y, z, n1) in groups:
         hx_, hy, hz = res["H"][x.cid], res["H"][y.cid], res["H"][z.cid]
-        if hx_ is None or hy is None or hz is None:
+        if hx_ is None or hy is None or hz is None or x.cid in notclone:
             continue
         tags = x.meta["tags"]
         got0 = [hx_[i] for i in range(len(hx_)) if i < len(tags) and tags[i] == 0]
